@@ -26,22 +26,23 @@ type Param struct {
 
 // Method is one controller method with its annotations.
 type Method struct {
-	Name       string   `json:"name"`
-	Verb       string   `json:"verb"`  // "" = no @Method annotation
-	Route      *string  `json:"route"` // nil = no @Route annotation
-	Hidden     bool     `json:"hidden,omitempty"`
-	Deprecated bool     `json:"deprecated,omitempty"`
-	Params     []Param  `json:"params,omitempty"`
-	Ret        string   `json:"ret,omitempty"`      // value type; "" = error only
-	Err        string   `json:"err,omitempty"`      // error type, default "error"; "-" = no error return at all
-	Response   string   `json:"response,omitempty"` // "201 Created" -> @Response(201) Created
-	ErrResps   []string `json:"err_resps,omitempty"`
-	Security   []Sec    `json:"security,omitempty"`
-	Lead       []string `json:"lead,omitempty"`  // raw comment lines placed first (free text etc.)
-	Extra      []string `json:"extra,omitempty"` // raw comment lines placed after the generated annotations
-	File       string   `json:"file,omitempty"`  // other file of the same package ("" = the controller's file)
-	Body       string   `json:"-"`               // method body override (runtime seam)
-	Recv       string   `json:"recv,omitempty"`  // receiver type override (methods on a same-named non-controller struct)
+	GroupParams bool     `json:"group_params,omitempty"` // write consecutive same-typed parameters as one declaration
+	Name        string   `json:"name"`
+	Verb        string   `json:"verb"`  // "" = no @Method annotation
+	Route       *string  `json:"route"` // nil = no @Route annotation
+	Hidden      bool     `json:"hidden,omitempty"`
+	Deprecated  bool     `json:"deprecated,omitempty"`
+	Params      []Param  `json:"params,omitempty"`
+	Ret         string   `json:"ret,omitempty"`      // value type; "" = error only
+	Err         string   `json:"err,omitempty"`      // error type, default "error"; "-" = no error return at all
+	Response    string   `json:"response,omitempty"` // "201 Created" -> @Response(201) Created
+	ErrResps    []string `json:"err_resps,omitempty"`
+	Security    []Sec    `json:"security,omitempty"`
+	Lead        []string `json:"lead,omitempty"`  // raw comment lines placed first (free text etc.)
+	Extra       []string `json:"extra,omitempty"` // raw comment lines placed after the generated annotations
+	File        string   `json:"file,omitempty"`  // other file of the same package ("" = the controller's file)
+	Body        string   `json:"-"`               // method body override (runtime seam)
+	Recv        string   `json:"recv,omitempty"`  // receiver type override (methods on a same-named non-controller struct)
 	// Style varies how the same annotations are written: 0 = canonical order; 1 = reversed order, a leading free-text
 	// line and a description on every parameter annotation (the meaning is unchanged)
 	Style int `json:"style,omitempty"`
@@ -171,8 +172,15 @@ func renderMethod(sb *strings.Builder, c Controller, m Method) {
 		recv = m.Recv
 	}
 	var ps []string
-	for _, p := range m.Params {
-		ps = append(ps, p.Name+" "+p.Type)
+	for i := 0; i < len(m.Params); i++ {
+		p := m.Params[i]
+		names := p.Name
+		// GroupParams: consecutive parameters of one type share a declaration ("a, b, c string")
+		for m.GroupParams && i+1 < len(m.Params) && m.Params[i+1].Type == p.Type {
+			i++
+			names += ", " + m.Params[i].Name
+		}
+		ps = append(ps, names+" "+p.Type)
 	}
 	errT := m.Err
 	if errT == "" {
